@@ -112,3 +112,71 @@ Definition fn_byte (c : N) : Prop :=
    name alphabet (so no '/', no '\', no NUL) *)
 Definition SafeComponent (nm : string) : Prop :=
   nm <> "" /\ nm <> "." /\ nm <> ".." /\ Forall fn_byte (bytes nm).
+
+(* --- the rules in code order, each as a check of its own --- *)
+
+Fixpoint first_error (l : list errc) : errc :=
+  match l with [] => EOk | e :: r => e ;; first_error r end.
+
+Definition name_rule (s : stmt) : errc := if String.eqb (s_name s) "" then ENameEmpty else EOk.
+
+Definition level_rule (s : stmt) : errc :=
+  match get_level (sv_level (s_sv s)) (sv_override (s_sv s)) with
+  | inl e => level_errc e
+  | inr _ => EOk
+  end.
+
+Definition ts_rule (s : stmt) : errc := if ts_ok (sv_ts (s_sv s)) then EOk else ETimestamp.
+
+Definition is_skip (s : stmt) : bool := String.eqb (sv_level (s_sv s)) "skip".
+
+Definition presence_rule (s : stmt) : errc :=
+  if is_skip s then
+    (if negb (is_empty (s_stores s)) || negb (is_empty (s_ids s)) then ESkipWithStores else EOk)
+  else if is_empty (s_stores s) || is_empty (s_ids s) then EMissingStoresOrIds else EOk.
+
+Definition stores_rule (s : stmt) : errc := if is_skip s then EOk else validate_trust_store (s_stores s).
+Definition ids_rule (s : stmt) : errc := if is_skip s then EOk else validate_trusted_identities (s_ids s).
+
+Definition stmt_rules (s : stmt) : list errc :=
+  [name_rule s; level_rule s; ts_rule s; presence_rule s; stores_rule s; ids_rule s].
+
+Definition dup_rule (seen : list string) (s : stmt) : errc :=
+  if mem_str (s_name s) seen then EDupName else EOk.
+
+Definition version_rules (d : doc) : list errc :=
+  [ (if String.eqb (d_version d) "" then EVersionEmpty else EOk);
+    (if mem_str (d_version d) supported_versions then EOk else EVersionUnsupported);
+    (if is_empty (d_stmts d) then ENoStatements else EOk) ].
+
+(* OCI: the statement loop ... *)
+Fixpoint oci_stmt_rules (ss : list stmt) (seen : list string) : list errc :=
+  match ss with
+  | [] => []
+  | s :: r => dup_rule seen s :: stmt_rules s ++ oci_stmt_rules r (s_name s :: seen)
+  end.
+
+(* ... then the scope loop, then the count map *)
+Definition scope_rules (s : stmt) : list errc :=
+  [ (if is_empty (s_scopes s) then EScopesZero else EOk);
+    (if Nat.ltb 1 (List.length (s_scopes s)) && mem_str wildcard (s_scopes s)
+     then EScopeWildcardMixed else EOk) ]
+  ++ map (fun sc => if String.eqb sc wildcard then EOk else validate_scope_format sc) (s_scopes s).
+
+Definition oci_rules (d : doc) : list errc :=
+  version_rules d ++ oci_stmt_rules (d_stmts d) [] ++ flat_map scope_rules (d_stmts d)
+  ++ [if has_dup (flat_map s_scopes (d_stmts d)) then EScopeDup else EOk].
+
+(* blob: the statement loop with the two global rules *)
+Fixpoint blob_stmt_rules (ss : list stmt) (seen : list string) (found_global : bool) : list errc :=
+  match ss with
+  | [] => []
+  | s :: r =>
+      dup_rule seen s :: stmt_rules s
+      ++ [ (if s_global s && found_global then EGlobalMulti else EOk);
+           (if s_global s && is_skip s then EGlobalSkip else EOk) ]
+      ++ blob_stmt_rules r (s_name s :: seen) (found_global || s_global s)
+  end.
+
+Definition blob_rules (d : doc) : list errc :=
+  version_rules d ++ blob_stmt_rules (d_stmts d) [] false.
